@@ -6,12 +6,12 @@ namespace DryocVerif.Proofs.Protected
 open DryocVerif DryocVerif.Model.Protected
 
 theorem inv_mach {c : Cfg} {s : State} {m' : Mach} (h : GoodL c.P m'.k (blks s.slots)) :
-    Inv c ⟨m', s.slots⟩ := h
+    InvK c ⟨m', s.slots⟩ := h
 
 theorem tight_mach {c : Cfg} {s : State} {m' : Mach} (h : TightL c.P m'.k (blks s.slots)) :
     Tight c ⟨m', s.slots⟩ := h
 
-theorem pres_opNew {c : Cfg} (hP : 0 < c.P) {s : State} (h : Inv c s) : Pres c s (opNew c s) := by
+theorem pres_opNew {c : Cfg} (hP : 0 < c.P) {s : State} (h : InvK c s) : Pres c s (opNew c s) := by
   unfold opNew
   have g1 := good_newBytes hP (m := s.m) h
   have t1 := fun t : Tight c s => tight_newBytes hP (m := s.m) t h
@@ -27,18 +27,19 @@ theorem pres_doNewLocked {c : Cfg} (hP : 0 < c.P) {s : State} {m : Mach} {v : PV
     (t : Tight c s → TightL c.P m.k (⟨v, .rw, false⟩ :: blks s.slots))
     (src : Option Bytes) (ro rnd : Bool) :
     Pres c s (doNewLocked c s m v src ro rnd) := by
-  have gl := good_lockV hP g .rw
-  have tl := fun t0 => tight_lockV hP (t t0) g .rw (Or.inr (Or.inl (by simp)))
+  have gl := good_lockV hP g recNew
+  have tl := fun t0 => tight_lockV hP (t t0) g recNew (Or.inr (Or.inl (by simp)))
   unfold doNewLocked
-  by_cases hr : (lockV c m v .rw).2 = true
+  by_cases hr : (lockV c m v recNew).2 = true
   · simp only [hr, if_true]
     have g1 := gl.1 hr
     have key : ∀ v1 : PVec, v1.base = v.base → v1.cap = v.cap → v1.len = v.len →
         v1.buf.length = v.buf.length →
         Pres c s (Res.ok, push s
-          (if ro = true then dryocMprotect c (lockV c m v .rw).1 (ptr c v1) v1.len .r
-            else (lockV c m v .rw).1)
-          (.prot .locked (if ro = true then .ro else .rw)) v1 (rnd && decide (0 < v1.len))) := by
+          (if ro = true then dryocMprotect c (lockV c m v recNew).1 (ptr c v1) v1.len .r
+            else (lockV c m v recNew).1)
+          (.prot .locked (if ro = true then .ro else .rw)) v1 (rnd && decide (0 < v1.len))
+          (.locked, if ro = true then .ro else .rw)) := by
       intro v1 e1 e2 e3 e4
       have g2 := good_setbuf (v' := v1) hP g1 e1 e2 e3 e4
       have t2 := fun t0 => tight_setvec (b' := ⟨v1, .rw, true⟩) ((tl t0).1 hr) e1 e2
@@ -54,16 +55,16 @@ theorem pres_doNewLocked {c : Cfg} (hP : 0 < c.P) {s : State} {m : Mach} {v : PV
     | none => exact key v rfl rfl rfl rfl
     | some b => exact key (writeV v b) rfl rfl rfl (writeV_buf_length _ _)
   · simp only [hr]
-    have hr' : (lockV c m v .rw).2 = false := by simpa using hr
+    have hr' : (lockV c m v recNew).2 = false := by simpa using hr
     exact ⟨inv_mach (gl.2 hr'), fun t0 => tight_mach ((tl t0).2 hr')⟩
 
-theorem pres_opNewLocked {c : Cfg} (hP : 0 < c.P) {s : State} (h : Inv c s) (ro rnd : Bool) :
+theorem pres_opNewLocked {c : Cfg} (hP : 0 < c.P) {s : State} (h : InvK c s) (ro rnd : Bool) :
     Pres c s (opNewLocked c s ro rnd) := by
   unfold opNewLocked
   exact pres_doNewLocked hP (good_newBytes hP (m := s.m) h)
     (fun t => tight_newBytes hP (m := s.m) t h) _ _ _
 
-theorem pres_doFromSlice {c : Cfg} (hP : 0 < c.P) {s : State} (h : Inv c s) (n : Nat) (ro : Bool) :
+theorem pres_doFromSlice {c : Cfg} (hP : 0 < c.P) {s : State} (h : InvK c s) (n : Nat) (ro : Bool) :
     Pres c s (doFromSlice c s n ro) := by
   unfold doFromSlice
   split
@@ -75,13 +76,13 @@ theorem pres_doFromSlice {c : Cfg} (hP : 0 < c.P) {s : State} (h : Inv c s) (n :
     exact pres_doNewLocked hP (good_vecResize hP g0 n)
       (fun t => tight_vecResize (tight_add t _) g0 hP n) _ _ _
 
-theorem pres_doCloneLocked {c : Cfg} (hP : 0 < c.P) {s : State} (h : Inv c s) (sl : Slot) (ro : Bool) :
+theorem pres_doCloneLocked {c : Cfg} (hP : 0 < c.P) {s : State} (h : InvK c s) (sl : Slot) (ro : Bool) :
     Pres c s (doCloneLocked c s sl ro) := by
   have g0 := good_add_empty hP (k := s.m.k) h .rw false
-  have gl := good_lockedResize hP g0 sl.o.v.len
-  have tl := fun t : Tight c s => tight_lockedResize hP (tight_add t _) g0 sl.o.v.len
+  have gl := good_lockedResize hP g0 (.locked, .rw) sl.o.v.len
+  have tl := fun t : Tight c s => tight_lockedResize hP (tight_add t _) g0 (.locked, .rw) (fun _ => rfl) sl.o.v.len
   unfold doCloneLocked
-  cases hn : (lockedResize c s.m PVec.empty sl.o.v.len).2 with
+  cases hn : (lockedResize c s.m PVec.empty (.locked, .rw) sl.o.v.len).2 with
   | none =>
     simp only [hn] at gl tl ⊢
     exact ⟨inv_mach (good_remove_empty gl rfl), fun t => tight_mach (tight_remove_empty (tl t) rfl)⟩
@@ -98,7 +99,7 @@ theorem pres_doCloneLocked {c : Cfg} (hP : 0 < c.P) {s : State} (h : Inv c s) (s
       refine ⟨inv_push (good_mprotect hP g2 .r), fun t0 => tight_push ?_⟩
       exact tight_mprotect hP (t2 t0) (g2.ok _ (List.mem_cons_self)).lenle _ _ _
 
-theorem pres_opClone {c : Cfg} (hP : 0 < c.P) {s : State} (h : Inv c s) (i : Nat) :
+theorem pres_opClone {c : Cfg} (hP : 0 < c.P) {s : State} (h : InvK c s) (i : Nat) :
     Pres c s (opClone c s i) := by
   unfold opClone
   apply withLive_elim _ _ _ _ (pres_same h _) (pres_same h _)
@@ -118,7 +119,377 @@ theorem pres_opClone {c : Cfg} (hP : 0 < c.P) {s : State} (h : Inv c s) (i : Nat
     · exact pres_doCloneLocked hP h sl true
   · exact pres_same h _
 
-theorem pres_probe {c : Cfg} {s : State} (h : Inv c s) (i off : Nat) (fore : Bool) :
+/-! ### `Zeroize::zeroize(&mut self)` -/
+
+/-- the `zeroize` tokens that break the agreement of pages and TYPE state: on a live, non-empty `Protected`
+region that is not `Unlocked` read-write (the pages become read-write / unlocked, the type stays) -/
+def ZeroizesProtected (s : State) (t : Tok) : Prop :=
+  t.op = .zeroize ∧ ∃ sl, s.slots[t.idx]? = some sl ∧ sl.gone = false ∧ 0 < sl.o.v.len ∧
+    sl.o.st ≠ .plain ∧ sl.o.st ≠ .prot .unlocked .rw
+
+/-- the permission / lock flag demanded of the data pages of an EMPTY container is irrelevant -/
+theorem good_relabel_empty {P : Nat} (hP : 0 < P) {k : Kernel} {v : PVec} {dp dp' : Perm} {dl dl' : Bool}
+    {R : List Blk} (g : GoodL P k (⟨v, dp, dl⟩ :: R)) (h0 : v.len = 0) : GoodL P k (⟨v, dp', dl'⟩ :: R) := by
+  refine good_dataop hP g rfl ?_ (fun _ _ => ⟨rfl, rfl⟩)
+  intro i h1 h2
+  simp only [h0, pagesOf_zero hP] at h2; omega
+
+theorem zeroizeV_buf_length (v : PVec) : (zeroizeV v).buf.length = v.buf.length := by
+  simp [zeroizeV, wipeN_length]
+
+theorem tight_opZeroize {c : Cfg} (hP : 0 < c.P) {s : State} (h : InvK c s) (ht : Tight c s) (i : Nat) :
+    Tight c (opZeroize c s i).2 := by
+  unfold opZeroize
+  apply withLive_elim (Q := fun r => Tight c r.2) _ _ _ _ ht ht
+  intro sl l1 l2 hs hi hg
+  have g := good_head hs hg h
+  have t := tight_head hs hg ht
+  split
+  · exact tight_set_live hs hi hg (tight_setvec t rfl rfl)
+  · exact tight_set_live hs hi hg
+      (tight_protZeroize hP t (g.ok _ (List.mem_cons_self)).lenle _ _ _ _)
+
+/-- `zeroize` keeps the page invariant on bare containers, on `Unlocked` read-write regions and on empty regions -/
+theorem inv_opZeroize {c : Cfg} (hP : 0 < c.P) {s : State} (h : InvK c s) (hrec : RecOK s) (i : Nat)
+    (hz : ¬ ZeroizesProtected s ⟨.zeroize, i⟩) : InvK c (opZeroize c s i).2 := by
+  unfold opZeroize
+  apply withLive_elim (Q := fun r => InvK c r.2) _ _ _ _ h h
+  intro sl l1 l2 hs hi hg
+  have g := good_head hs hg h
+  have hget : s.slots[i]? = some sl := by rw [hs, ← hi]; exact getElem?_split _ _ _
+  split
+  · exact inv_set_live hs hi hg (good_setbuf hP g rfl rfl rfl (zeroizeV_buf_length _))
+  · rename_i lm pm hst
+    have hrc := hrec sl (mem_split hs) hg lm pm hst
+    have gz := good_protZeroize hP g sl.o.rcd.1 sl.o.rcd.2
+    refine inv_set_live hs hi hg ?_
+    show GoodL c.P _ (⟨zeroizeV sl.o.v, stPerm sl.o.st, stLocked sl.o.st⟩ :: _)
+    by_cases h0 : sl.o.v.len = 0
+    · exact good_relabel_empty hP gz h0
+    · have hur : sl.o.st = .prot .unlocked .rw := by
+        apply Classical.byContradiction
+        intro hne
+        exact hz ⟨rfl, sl, hget, hg, by omega, by rw [hst]; simp, hne⟩
+      rw [hst] at hur
+      injection hur with e1 e2
+      subst e1; subst e2
+      have e1 : sl.o.rcd.1 = .unlocked := by rw [hrc]
+      have e2 : sl.o.rcd.2 = .rw := by rw [hrc]
+      simpa [wipePerm, wipeLock, hst, blkOf, stPerm, stLocked, e1, e2] using gz
+
+/-! ### `clone` as a function of the object (`clone_from`) -/
+
+theorem good_cloneLockedObj {c : Cfg} (hP : 0 < c.P) {m : Mach} {R : List Blk} (g : GoodL c.P m.k R)
+    (o : Obj) (ro : Bool) :
+    match (cloneLockedObj c m o ro).2 with
+    | none => GoodL c.P (cloneLockedObj c m o ro).1.k R
+    | some o' => GoodL c.P (cloneLockedObj c m o ro).1.k (blkOf o' :: R) := by
+  have g0 := good_add_empty hP g .rw false
+  have gl := good_lockedResize hP g0 (.locked, .rw) o.v.len
+  unfold cloneLockedObj
+  cases hn : (lockedResize c m PVec.empty (.locked, .rw) o.v.len).2 with
+  | none =>
+    simp only [hn] at gl ⊢
+    exact good_remove_empty gl rfl
+  | some nv =>
+    simp only [hn] at gl ⊢
+    have g2 := good_setbuf (v' := writeV nv o.v.data) hP gl rfl rfl rfl (writeV_buf_length _ _)
+    cases ro with
+    | false => simpa [blkOf, stPerm, stLocked, PM.perm] using g2
+    | true => simpa [blkOf, stPerm, stLocked, PM.perm] using good_mprotect hP g2 .r
+
+theorem tight_cloneLockedObj {c : Cfg} (hP : 0 < c.P) {m : Mach} {R : List Blk} (g : GoodL c.P m.k R)
+    (t : TightL c.P m.k R) (o : Obj) (ro : Bool) :
+    match (cloneLockedObj c m o ro).2 with
+    | none => TightL c.P (cloneLockedObj c m o ro).1.k R
+    | some o' => TightL c.P (cloneLockedObj c m o ro).1.k (blkOf o' :: R) := by
+  have g0 := good_add_empty hP g .rw false
+  have gl := good_lockedResize hP g0 (.locked, .rw) o.v.len
+  have tl := tight_lockedResize hP (tight_add t _) g0 (.locked, .rw) (fun _ => rfl) o.v.len
+  unfold cloneLockedObj
+  cases hn : (lockedResize c m PVec.empty (.locked, .rw) o.v.len).2 with
+  | none =>
+    simp only [hn] at tl ⊢
+    exact tight_remove_empty tl rfl
+  | some nv =>
+    simp only [hn] at gl tl ⊢
+    have g2 := good_setbuf (v' := writeV nv o.v.data) hP gl rfl rfl rfl (writeV_buf_length _ _)
+    have t2 : TightL c.P _ (⟨writeV nv o.v.data, .rw, true⟩ :: R) := tight_setvec tl rfl rfl
+    cases ro with
+    | false => simpa [blkOf, stPerm, stLocked, PM.perm] using t2
+    | true =>
+      have := tight_mprotect hP t2 (g2.ok _ (List.mem_cons_self)).lenle .r .r true
+      simpa [blkOf, stPerm, stLocked, PM.perm] using this
+
+/-- what `cloneObj` returns: nothing / a machine after a panic / a machine and the new object -/
+def CloneSpec (R : List Blk) (r : Option (Mach × Option Obj)) (G : Kernel → List Blk → Prop) : Prop :=
+  match r with
+  | none => True
+  | some (m1, none) => G m1.k R
+  | some (m1, some o') => G m1.k (blkOf o' :: R)
+
+theorem cloneSpec_of_pair {R : List Blk} {G : Kernel → List Blk → Prop} (x : Mach × Option Obj)
+    (h : match x.2 with
+      | none => G x.1.k R
+      | some o' => G x.1.k (blkOf o' :: R)) : CloneSpec R (some x) G := by
+  obtain ⟨m1, oo⟩ := x
+  cases oo <;> exact h
+
+theorem good_cloneObj {c : Cfg} (hP : 0 < c.P) {m : Mach} {R : List Blk} (g : GoodL c.P m.k R) (o : Obj) :
+    CloneSpec R (cloneObj c m o) (GoodL c.P) := by
+  have gc := good_vecClone hP (m := m) g o.v
+  unfold cloneObj
+  split
+  · exact gc
+  · show GoodL c.P _ _
+    simpa [blkOf, stPerm, stLocked, PM.perm] using gc
+  · show GoodL c.P _ _
+    simpa [blkOf, stPerm, stLocked, PM.perm] using good_mprotect hP gc .r
+  · split
+    · trivial
+    · exact cloneSpec_of_pair _ (good_cloneLockedObj hP g o false)
+  · split
+    · trivial
+    · exact cloneSpec_of_pair _ (good_cloneLockedObj hP g o true)
+  · trivial
+
+theorem tight_cloneObj {c : Cfg} (hP : 0 < c.P) {m : Mach} {R : List Blk} (g : GoodL c.P m.k R)
+    (t : TightL c.P m.k R) (o : Obj) : CloneSpec R (cloneObj c m o) (TightL c.P) := by
+  have gc := good_vecClone hP (m := m) g o.v
+  have tc := tight_vecClone (m := m) t o.v
+  unfold cloneObj
+  split
+  · exact tc
+  · show TightL c.P _ _
+    simpa [blkOf, stPerm, stLocked, PM.perm] using tc
+  · show TightL c.P _ _
+    have := tight_mprotect hP tc (gc.ok _ (List.mem_cons_self)).lenle .r .r false
+    simpa [blkOf, stPerm, stLocked, PM.perm] using this
+  · split
+    · trivial
+    · exact cloneSpec_of_pair _ (tight_cloneLockedObj hP g t o false)
+  · split
+    · trivial
+    · exact cloneSpec_of_pair _ (tight_cloneLockedObj hP g t o true)
+  · trivial
+
+/-- the clone is in the type state of the original, and its record is the one of that state -/
+theorem cloneObj_st {c : Cfg} {m m1 : Mach} {o o' : Obj} (h : cloneObj c m o = some (m1, some o')) :
+    o'.st = o.st ∧ (∀ lm pm, o'.st = .prot lm pm → o'.rcd = (lm, pm)) := by
+  have hl : ∀ ro, cloneLockedObj c m o ro = (m1, some o') →
+      o'.st = .prot .locked (if ro then .ro else .rw) ∧ o'.rcd = (.locked, if ro then .ro else .rw) := by
+    intro ro
+    unfold cloneLockedObj
+    simp only []
+    split
+    · simp
+    · intro hh
+      simp only [Prod.mk.injEq, Option.some.injEq] at hh
+      rw [← hh.2]; exact ⟨rfl, rfl⟩
+  unfold cloneObj at h
+  split at h
+  · rename_i hst
+    simp only [Option.some.injEq, Prod.mk.injEq] at h
+    rw [← h.2, hst]; exact ⟨rfl, by intro lm pm hh; simp at hh⟩
+  · rename_i hst
+    simp only [Option.some.injEq, Prod.mk.injEq] at h
+    rw [← h.2, hst]; refine ⟨rfl, ?_⟩
+    intro lm pm hh; simp only [St.prot.injEq] at hh; rw [← hh.1, ← hh.2]; rfl
+  · rename_i hst
+    simp only [Option.some.injEq, Prod.mk.injEq] at h
+    rw [← h.2, hst]; refine ⟨rfl, ?_⟩
+    intro lm pm hh; simp only [St.prot.injEq] at hh; rw [← hh.1, ← hh.2]
+  · rename_i hst
+    split at h
+    · simp at h
+    · have := hl false (by simpa using h)
+      rw [this.1, hst]; refine ⟨rfl, ?_⟩
+      intro lm pm hh; simp only [Bool.false_eq_true, if_false, St.prot.injEq] at hh this
+      rw [this.2, ← hh.1, ← hh.2]
+  · rename_i hst
+    split at h
+    · simp at h
+    · have := hl true (by simpa using h)
+      rw [this.1, hst]; refine ⟨rfl, ?_⟩
+      intro lm pm hh; simp only [if_true, St.prot.injEq] at hh this
+      rw [this.2, ← hh.1, ← hh.2]
+  · simp at h
+
+theorem perm_head3 {α : Type} (a b : α) (l1 l2 l : List α) (h : l.Perm (a :: (l1 ++ l2))) :
+    (b :: l).Perm (a :: b :: (l1 ++ l2)) :=
+  (List.Perm.cons b h).trans (List.Perm.swap a b _)
+
+section assign
+variable {c : Cfg} (hP : 0 < c.P) {s : State} {d : Slot} {l1 l2 : List Slot} {i : Nat}
+  (hs : s.slots = l1 ++ d :: l2) (hi : l1.length = i) (hg : d.gone = false)
+  (hrd : ∀ lm pm, d.o.st = .prot lm pm → d.o.rcd = (lm, pm))
+include hP hs hi hg hrd
+
+/-- `*d = o` (drop the old value of slot `i`, move `o` in), `o` already built in machine `m` -/
+theorem pres_assign {m : Mach} {sl' : Slot} (hg' : sl'.gone = false)
+    (g : GoodL c.P m.k (blkOf sl'.o :: blks s.slots))
+    (t : Tight c s → TightL c.P m.k (blkOf sl'.o :: blks s.slots)) :
+    Pres c s (Res.ok, setSlot s (objDrop c m d.o) i sl') := by
+  have hperm := blks_mid_live (sl := d) hg l1 l2
+  rw [← hs] at hperm
+  have pp := perm_head3 _ (blkOf sl'.o) _ _ _ hperm
+  have g1 := g.perm pp
+  exact ⟨inv_set_live hs hi hg' (good_objDrop hP (o := d.o) g1),
+    fun t0 => tight_set_live hs hi hg' (tight_objDrop hP ((t t0).perm pp) g1 hrd)⟩
+
+/-- the same with a temporary `tmp` that is dropped after the assignment -/
+theorem pres_assign_tmp {m : Mach} {sl' : Slot} {tmp : Obj} (hg' : sl'.gone = false)
+    (hrt : ∀ lm pm, tmp.st = .prot lm pm → tmp.rcd = (lm, pm))
+    (g : GoodL c.P m.k (blkOf sl'.o :: blkOf tmp :: blks s.slots))
+    (t : Tight c s → TightL c.P m.k (blkOf sl'.o :: blkOf tmp :: blks s.slots)) :
+    Pres c s (Res.ok, setSlot s (objDrop c (objDrop c m d.o) tmp) i sl') := by
+  have hperm := blks_mid_live (sl := d) hg l1 l2
+  rw [← hs] at hperm
+  have pp : (blkOf sl'.o :: blkOf tmp :: blks s.slots).Perm
+      (blkOf d.o :: blkOf tmp :: blkOf sl'.o :: (blks l1 ++ blks l2)) := by
+    refine (List.Perm.swap _ _ _).trans ?_
+    refine (List.Perm.cons _ (perm_head3 _ (blkOf sl'.o) _ _ _ hperm)).trans ?_
+    exact List.Perm.swap _ _ _
+  have g1 := g.perm pp
+  have g2 := good_objDrop hP (o := d.o) g1
+  exact ⟨inv_set_live hs hi hg' (good_objDrop hP (o := tmp) g2), fun t0 =>
+    tight_set_live hs hi hg' (tight_objDrop hP (tight_objDrop hP ((t t0).perm pp) g1 hrd) g2 hrt)⟩
+
+end assign
+
+/-- `clone_from`: whatever the outcome, the page invariant holds and no stray lock appears -/
+theorem pres_opCloneFrom {c : Cfg} (hP : 0 < c.P) {s : State} (h : InvK c s) (hrec : RecOK s) (i j : Nat) :
+    Pres c s (opCloneFrom c s i j) := by
+  unfold opCloneFrom
+  split
+  · exact pres_same h _
+  split
+  · rename_i d src hd hsrc
+    split
+    · exact pres_same h _
+    rename_i hcond
+    simp only [Bool.or_eq_true, decide_eq_true_eq, not_or] at hcond
+    have hg : d.gone = false := by simpa using hcond.1.1
+    obtain ⟨l1, l2, hs, hi⟩ := slot_split hd
+    have hrd := hrec d (mem_split hs) hg
+    have gp := good_cloneObj hP (m := s.m) h src.o
+    have tp := fun t0 : Tight c s => tight_cloneObj hP (m := s.m) h t0 src.o
+    split
+    · -- locked forms: probe clone first
+      cases hp : cloneObj c s.m src.o with
+      | none => exact pres_same h _
+      | some r1 =>
+        obtain ⟨m1, ot⟩ := r1
+        cases ot with
+        | none =>
+          simp only [hp, CloneSpec] at gp tp ⊢
+          exact ⟨inv_mach gp, fun t0 => tight_mach (tp t0)⟩
+        | some tmp =>
+          simp only [hp, CloneSpec] at gp tp ⊢
+          have hrt := (cloneObj_st hp).2
+          have gq := good_cloneObj hP (m := m1) gp src.o
+          have tq := fun t0 : Tight c s => tight_cloneObj hP (m := m1) gp (tp t0) src.o
+          cases hq : cloneObj c m1 src.o with
+          | none =>
+            simp only []
+            exact ⟨inv_mach (good_objDrop hP (o := tmp) gp),
+              fun t0 => tight_mach (tight_objDrop hP (tp t0) gp hrt)⟩
+          | some r2 =>
+            obtain ⟨m2, oo⟩ := r2
+            cases oo with
+            | none =>
+              simp only [hq, CloneSpec] at gq tq ⊢
+              exact ⟨inv_mach (good_objDrop hP (o := tmp) gq),
+                fun t0 => tight_mach (tight_objDrop hP (tq t0) gq hrt)⟩
+            | some o =>
+              simp only [hq, CloneSpec] at gq tq ⊢
+              exact pres_assign_tmp hP hs hi hg hrd (sl' := { d with o := o, rnd := src.rnd }) hg hrt gq tq
+    · cases hp : cloneObj c s.m src.o with
+      | none => exact pres_same h _
+      | some r1 =>
+        obtain ⟨m1, oo⟩ := r1
+        cases oo with
+        | none =>
+          simp only [hp, CloneSpec] at gp tp ⊢
+          exact ⟨inv_mach gp, fun t0 => tight_mach (tp t0)⟩
+        | some o =>
+          simp only [hp, CloneSpec] at gp tp ⊢
+          exact pres_assign hP hs hi hg hrd (sl' := { d with o := o, rnd := src.rnd }) hg gp tp
+  · exact pres_same h _
+
+/-! ### `stacklock`, `serde` -/
+
+theorem pres_opStackLock {c : Cfg} (hP : 0 < c.P) {s : State} (h : InvK c s) : Pres c s (opStackLock c s) := by
+  unfold opStackLock
+  split
+  · have g1 := good_newBytes hP (m := s.m) h
+    exact pres_doNewLocked hP
+      (good_setbuf (v' := writeV (newBytes c s.m).2 (List.replicate c.n 0x5a)) hP g1 rfl rfl rfl
+        (writeV_buf_length _ _))
+      (fun t => tight_setvec (tight_newBytes hP (m := s.m) t h) rfl rfl) _ _ _
+  · exact pres_same h _
+
+theorem setV_buf_length (v : PVec) (i : Nat) (b : UInt8) : (setV v i b).buf.length = v.buf.length := by
+  simp [setV]
+
+theorem good_seqFill {c : Cfg} (hP : 0 < c.P) (b : UInt8) {R : List Blk} (k : Nat) : ∀ (r : Mach × PVec),
+    GoodL c.P r.1.k (⟨r.2, .rw, false⟩ :: R) →
+    GoodL c.P (seqFill c b k r).1.k (⟨(seqFill c b k r).2, .rw, false⟩ :: R) := by
+  induction k with
+  | zero => intro r g; exact g
+  | succ k ih =>
+    intro r g
+    simp only [seqFill]
+    apply ih
+    have g1 := good_vecResize hP g (r.2.len + 1)
+    exact good_setbuf hP g1 rfl rfl rfl (setV_buf_length _ _ _)
+
+theorem tight_seqFill {c : Cfg} (hP : 0 < c.P) (b : UInt8) {R : List Blk} (k : Nat) : ∀ (r : Mach × PVec),
+    GoodL c.P r.1.k (⟨r.2, .rw, false⟩ :: R) → TightL c.P r.1.k (⟨r.2, .rw, false⟩ :: R) →
+    TightL c.P (seqFill c b k r).1.k (⟨(seqFill c b k r).2, .rw, false⟩ :: R) := by
+  induction k with
+  | zero => intro r _ t; exact t
+  | succ k ih =>
+    intro r g t
+    simp only [seqFill]
+    have g1 := good_vecResize hP g (r.2.len + 1)
+    apply ih
+    · exact good_setbuf hP g1 rfl rfl rfl (setV_buf_length _ _ _)
+    · exact tight_setvec (tight_vecResize t g hP _) rfl rfl
+
+theorem pres_doSerdeArrJson {c : Cfg} (hP : 0 < c.P) {s : State} (h : InvK c s) (n : Nat) :
+    Pres c s (doSerdeArrJson c s n) := by
+  have g := good_newBytes hP (m := s.m) h
+  have t := fun t0 : Tight c s => tight_newBytes hP (m := s.m) t0 h
+  have gl := good_lockV hP g recNew
+  have tl := fun t0 => tight_lockV hP (t t0) g recNew (Or.inr (Or.inl (by simp)))
+  unfold doSerdeArrJson
+  by_cases hr : (lockV c (newBytes c s.m).1 (newBytes c s.m).2 recNew).2 = true
+  · simp only [hr, if_true]
+    have g2 := good_setbuf (v' := writeV (newBytes c s.m).2 (List.replicate (min n c.n) 0x5a)) hP (gl.1 hr)
+      rfl rfl rfl (writeV_buf_length _ _)
+    have t2 := fun t0 => tight_setvec
+      (b' := ⟨writeV (newBytes c s.m).2 (List.replicate (min n c.n) 0x5a), .rw, true⟩) ((tl t0).1 hr) rfl rfl
+    split
+    · exact ⟨inv_push g2, fun t0 => tight_push (t2 t0)⟩
+    · exact ⟨inv_mach (good_protDrop hP g2 _ _),
+        fun t0 => tight_mach (tight_protDrop hP (t2 t0) g2 _ _ (fun _ => rfl))⟩
+  · simp only [hr]
+    have hr' : (lockV c (newBytes c s.m).1 (newBytes c s.m).2 recNew).2 = false := by simpa using hr
+    exact ⟨inv_mach (gl.2 hr'), fun t0 => tight_mach ((tl t0).2 hr')⟩
+
+theorem pres_opSerde {c : Cfg} (hP : 0 < c.P) {s : State} (h : InvK c s) (json : Bool) (n : Nat) :
+    Pres c s (opSerde c s json n) := by
+  unfold opSerde
+  split
+  · split
+    · exact pres_doSerdeArrJson hP h n
+    · have g0 := good_add_empty hP (k := s.m.k) h .rw false
+      exact pres_doNewLocked hP (good_seqFill hP 0x5a n (s.m, PVec.empty) g0)
+        (fun t => tight_seqFill hP 0x5a n (s.m, PVec.empty) g0 (tight_add t _)) _ _ _
+  · exact pres_doFromSlice hP h n false
+
+theorem pres_probe {c : Cfg} {s : State} (h : InvK c s) (i off : Nat) (fore : Bool) :
     Pres c s (opWProbe c s i off) ∧ Pres c s (opRProbe c s i off) ∧ Pres c s (opGProbe c s i fore) := by
   refine ⟨?_, ?_, ?_⟩
   · unfold opWProbe
@@ -141,12 +512,13 @@ theorem pres_probe {c : Cfg} {s : State} (h : Inv c s) (i off : Nat) (fore : Boo
     · simp only []; repeat' split
       all_goals exact pres_same h _
 
-theorem inv_resetRel {c : Cfg} {s : State} : Inv c (resetRel s) ↔ Inv c s := Iff.rfl
+theorem inv_resetRel {c : Cfg} {s : State} : InvK c (resetRel s) ↔ InvK c s := Iff.rfl
 theorem tight_resetRel {c : Cfg} {s : State} : Tight c (resetRel s) ↔ Tight c s := Iff.rfl
 
-/-- `Inv` is preserved by every token, unconditionally -/
-theorem inv_stepCore {c : Cfg} (hP : 0 < c.P) {s : State} (h : Inv c s) (t : Tok) :
-    Inv c (stepCore c s t).2 := by
+/-- the page invariant is preserved by every token (whatever the lock oracle answers), except by a `zeroize` of a
+non-empty `Protected` region that is not `Unlocked` read-write -/
+theorem invK_stepCore {c : Cfg} (hP : 0 < c.P) {s : State} (h : InvK c s) (hrec : RecOK s) (t : Tok)
+    (hz : ¬ ZeroizesProtected s t) : InvK c (stepCore c s t).2 := by
   unfold stepCore
   cases hop : t.op <;> simp only []
   case new => exact (pres_opNew hP h).1
@@ -157,8 +529,14 @@ theorem inv_stepCore {c : Cfg} (hP : 0 < c.P) {s : State} (h : Inv c s) (t : Tok
   case rw => exact (pres_opProtect hP h _ _).1
   case na => exact (pres_opNa hP h _).1
   case clone => exact (pres_opClone hP h _).1
-  case resize n => exact (pres_opResize hP h _ _).1
-  case drop => exact (pres_opDrop hP h _).1
+  case resize n b => exact (pres_opResize hP h hrec _ _ _).1
+  case drop => exact (pres_opDrop hP h hrec _).1
+  case zeroize =>
+    refine inv_opZeroize hP h hrec _ (fun hh => hz ⟨hop, hh.2⟩)
+  case clonefrom j => exact (pres_opCloneFrom hP h hrec _ _).1
+  case panicdrop => exact (pres_opDrop hP h hrec _).1
+  case stacklock => exact (pres_opStackLock hP h).1
+  case serde js n => exact (pres_opSerde hP h _ _).1
   case fsl n => exact (pres_doFromSlice hP h _ _).1
   case fsro n => exact (pres_doFromSlice hP h _ _).1
   case newlocked => exact (pres_opNewLocked hP h _ _).1
@@ -172,8 +550,8 @@ theorem inv_stepCore {c : Cfg} (hP : 0 < c.P) {s : State} (h : Inv c s) (t : Tok
   case wrap => exact h
   case bad => exact h
 
-theorem tight_stepCore {c : Cfg} (hP : 0 < c.P) {s : State} (h : Inv c s) (ht : Tight c s) (t : Tok)
-    (hno : c.undo = true ∨ ¬ LocksNoAccess s t) : Tight c (stepCore c s t).2 := by
+theorem tight_stepCore {c : Cfg} (hP : 0 < c.P) {s : State} (h : InvK c s) (hrec : RecOK s) (ht : Tight c s)
+    (t : Tok) (hno : c.undo = true ∨ ¬ LocksNoAccess s t) : Tight c (stepCore c s t).2 := by
   unfold stepCore
   cases hop : t.op <;> simp only []
   case new => exact (pres_opNew hP h).2 ht
@@ -189,8 +567,13 @@ theorem tight_stepCore {c : Cfg} (hP : 0 < c.P) {s : State} (h : Inv c s) (ht : 
   case rw => exact (pres_opProtect hP h _ _).2 ht
   case na => exact (pres_opNa hP h _).2 ht
   case clone => exact (pres_opClone hP h _).2 ht
-  case resize n => exact (pres_opResize hP h _ _).2 ht
-  case drop => exact (pres_opDrop hP h _).2 ht
+  case resize n b => exact (pres_opResize hP h hrec _ _ _).2 ht
+  case drop => exact (pres_opDrop hP h hrec _).2 ht
+  case zeroize => exact tight_opZeroize hP h ht _
+  case clonefrom j => exact (pres_opCloneFrom hP h hrec _ _).2 ht
+  case panicdrop => exact (pres_opDrop hP h hrec _).2 ht
+  case stacklock => exact (pres_opStackLock hP h).2 ht
+  case serde js n => exact (pres_opSerde hP h _ _).2 ht
   case fsl n => exact (pres_doFromSlice hP h _ _).2 ht
   case fsro n => exact (pres_doFromSlice hP h _ _).2 ht
   case newlocked => exact (pres_opNewLocked hP h _ _).2 ht
@@ -222,7 +605,7 @@ theorem good_dropAll {c : Cfg} (hP : 0 < c.P) (slots : List Slot) {m : Mach}
       exact ih (good_objDrop hP (o := sl.o) g)
 
 theorem tight_dropAll {c : Cfg} (hP : 0 < c.P) (slots : List Slot) {m : Mach}
-    (g : GoodL c.P m.k (blks slots)) (t : TightL c.P m.k (blks slots)) :
+    (g : GoodL c.P m.k (blks slots)) (t : TightL c.P m.k (blks slots)) (hrec : ∀ sl ∈ slots, SlotRec sl) :
     TightL c.P (dropAllM c m slots).k [] := by
   induction slots generalizing m with
   | nil => exact t
@@ -231,10 +614,11 @@ theorem tight_dropAll {c : Cfg} (hP : 0 < c.P) (slots : List Slot) {m : Mach}
     by_cases hg : sl.gone = true
     · simp only [hg, if_true]
       rw [blks_cons_gone hg] at g t
-      exact ih g t
+      exact ih g t (fun x hx => hrec x (by simp [hx]))
     · have hg' : sl.gone = false := by simpa using hg
       simp only [hg]
       rw [blks_cons_live hg'] at g t
-      exact ih (good_objDrop hP (o := sl.o) g) (tight_objDrop hP t g)
+      exact ih (good_objDrop hP (o := sl.o) g) (tight_objDrop hP t g (hrec sl (by simp) hg'))
+        (fun x hx => hrec x (by simp [hx]))
 
 end DryocVerif.Proofs.Protected
